@@ -1,2 +1,7 @@
-import SciVerif.Model.Slots
-import SciVerif.Lemmas.Slots
+-- Root of the SciVerif library: everything `bin/setup` pre-builds.
+import SciVerif.Props.C01
+import SciVerif.Props.C06
+import SciVerif.Props.C07
+import SciVerif.Tie.C01
+import SciVerif.Tie.C06
+import SciVerif.Tie.C07
